@@ -83,6 +83,7 @@ def showFields (names : List String) (g : Fields) : String :=
 
 def handle : List String → Option String
   | ["lossy"] => some (pairs lossyReq)
+  | ["argued"] => some (pairs (zeroUnreachable ++ faithfulDerivation ++ emptyBodyRewrite))
   | ["findings"] => some (pairs (lossyReq.filter fun e => !zeroUnreachable.contains e && !faithfulDerivation.contains e))
   | ["dropped"] => some (pairs droppedResp)
   | ["tablelossy"] => some (pairs ((relevantReq.filter fun e => !reqOk e).map fun e => (e.1, e.2.1)))
